@@ -145,6 +145,15 @@ def Frame.isExt : Frame → Bool
   | .ext _ _ _ => true
   | _ => false
 
+/-- what `pack()` of the phase-2 classes in the pack model needs: header fields in the range of their `struct` field, and a payload
+that is bytes or another phase-2 object (mpls masks every field itself) -/
+def ExtOK : Ext → Frame → Prop
+  | .mpls _, n => n.isLeaf = true ∨ n.isExt = true
+  | .eapol h, n => h.version < 256 ∧ h.type < 256 ∧ h.bodylen < 65536 ∧ (n.isLeaf = true ∨ n.isExt = true)
+  | .eap h, n => h.code < 256 ∧ h.id < 256 ∧ h.length < 65536 ∧ (n.isLeaf = true ∨ n.isExt = true)
+  | _, _ => True
+
+
 /-- **Tiling.**  Every object's bytes are its header followed by exactly the bytes handed to the next layer; only `ipv4` (bytes
 beyond the total-length field) and `udp` (payload dropped when the length field is inconsistent) cut something off, and
 `llc`/`lldp` objects that gave up keep everything in `raw`.  For the phase-2 classes (`ext`) the statement is: the bytes handed
@@ -161,7 +170,7 @@ def Frame.Tiles : Frame → Prop
   | .udp _ r n => (∃ hd cut, hd.length = 8 ∧ r = hd ++ (n.bytes ++ cut)) ∧ n.Tiles
   | .tcp h r n => (∃ hd, hd.length = h.off * 4 ∧ r = hd ++ n.bytes) ∧ n.Tiles
   | .icmp _ r n | .echo _ r n | .unreach _ r n | .timeEx _ r n => (∃ hd, hd.length = 4 ∧ r = hd ++ n.bytes) ∧ n.Tiles
-  | .ext x r n => (∃ hd cut, r = hd ++ (n.bytes ++ cut) ∧ min x.hdrMin r.length ≤ hd.length) ∧ n.Tiles
+  | .ext x r n => (∃ hd cut, r = hd ++ (n.bytes ++ cut) ∧ min x.hdrMin r.length ≤ hd.length) ∧ ExtOK x n ∧ n.Tiles
 
 /-- inside an IPv4 datagram (`l4` = directly the payload of an IPv4 header, where UDP/TCP/ICMP objects live).  Sub-chains below
 a phase-2 object carry the tiling only (`pack()` of those classes is not modelled). -/
@@ -304,7 +313,8 @@ theorem tiles_foreigns : ∀ (f : Frame), f.Tiles → ∀ c ∈ f.foreigns, c = 
   | raw _ | nil | unparsed _ _ | lldp _ _ _ => intro _ c hc; simp [Frame.foreigns] at hc
   | foreign c' _ => intro h c hc; simp [Frame.foreigns] at hc; subst hc; exact h
   | eth _ _ _ ih | vlan _ _ _ ih | arp _ _ _ ih | ipv4 _ _ _ ih | udp _ _ _ ih | tcp _ _ _ ih | icmp _ _ _ ih | echo _ _ _ ih
-  | unreach _ _ _ ih | timeEx _ _ _ ih | ext _ _ _ ih => intro h c hc; exact ih h.2 c (by simpa [Frame.foreigns] using hc)
+  | unreach _ _ _ ih | timeEx _ _ _ ih => intro h c hc; exact ih h.2 c (by simpa [Frame.foreigns] using hc)
+  | ext _ _ _ ih => intro h c hc; exact ih h.2.2 c (by simpa [Frame.foreigns] using hc)
   | llc _ _ _ _ ih => intro h c hc; exact ih h.2.2 c (by simpa [Frame.foreigns] using hc)
 
 theorem specX_good (f : Frame) (h : SpecX f) : Good f := by
@@ -1312,8 +1322,9 @@ theorem spec_tiles (k : K) (f : Frame) (h : Spec k f) : f.Tiles := by
     | exact h.1
 
 theorem ext_specX (x : Ext) (r : Bytes) (n : Frame) (ht : n.Tiles)
-    (htile : ∃ hd cut, r = hd ++ (n.bytes ++ cut) ∧ min x.hdrMin r.length ≤ hd.length) :
-    SpecX (.ext x r n) := ⟨⟨htile, ht⟩, .inr rfl⟩
+    (htile : ∃ hd cut, r = hd ++ (n.bytes ++ cut) ∧ min x.hdrMin r.length ≤ hd.length)
+    (hx : ExtOK x n := by first | trivial | (simp [ExtOK, Frame.isLeaf, Frame.isExt]; done) | (simp [ExtOK, Frame.isLeaf, Frame.isExt]; omega)) :
+    SpecX (.ext x r n) := ⟨⟨htile, hx, ht⟩, .inr rfl⟩
 
 /-- an object without a next layer: the whole of it is header -/
 theorem nil_tiles (r : Bytes) {k : Nat} : ∃ hd cut, r = hd ++ (Frame.nil.bytes ++ cut) ∧ min k r.length ≤ hd.length :=
@@ -1335,6 +1346,14 @@ theorem nums3_shape (L : Layout) (w1 w2 w3 : Nat) (hL : L = [.uint w1, .uint w2,
   obtain ⟨x, _, rfl, _, y, _, rfl, _, z, _, rfl, _, rfl⟩ := hf
   exact ⟨x, y, z, hu⟩
 
+theorem nums3_shape_lt (L : Layout) (w1 w2 w3 : Nat) (hL : L = [.uint w1, .uint w2, .uint w3]) (b : Bytes) (h : b.length = w1 + w2 + w3) :
+    ∃ x y z, unpackE L b = .ok [.num x, .num y, .num z] ∧ x < 256 ^ w1 ∧ y < 256 ^ w2 ∧ z < 256 ^ w3 := by
+  subst hL
+  obtain ⟨vs, hu, _, hf⟩ := unpackE_total [.uint w1, .uint w2, .uint w3] b (by simp [size, h]; omega)
+  simp only [fits_uint_iff, fits_nil_iff] at hf
+  obtain ⟨x, _, rfl, hx, y, _, rfl, hy, z, _, rfl, hz, rfl⟩ := hf
+  exact ⟨x, y, z, hu, hx, hy, hz⟩
+
 theorem mplsParse_spec (next : K → Bytes → P Frame) (raw : Bytes) (hn : ∀ b, OutE SpecX b (next .mpls b)) :
     Out fx SpecX raw (mplsParse next raw) := by
   unfold mplsParse
@@ -1348,7 +1367,7 @@ theorem mplsParse_spec (next : K → Bytes → P Frame) (raw : Bytes) (hn : ∀ 
     split
     · rcases hn (raw.drop 4) with ⟨f, hf, hb, hg⟩ | ⟨e, he⟩
       · simp only [hf]
-        exact .inl ⟨_, rfl, rfl, ext_specX _ _ _ hg.1 (by rw [hb]; exact drop_tiles raw 4)⟩
+        exact .inl ⟨_, rfl, rfl, ext_specX _ _ _ hg.1 (by rw [hb]; exact drop_tiles raw 4) hg.2⟩
       · simp only [he]; exact .inl ⟨_, rfl, rfl, hraw⟩
     · exact .inl ⟨_, rfl, rfl, hraw⟩
 
@@ -1357,7 +1376,9 @@ theorem eapParse_spec (raw : Bytes) : Out fx SpecX raw (eapParse vr raw) := by
   split
   · exact .inl ⟨_, rfl, rfl, specX_leaf _ rfl⟩
   · rename_i hlen
-    obtain ⟨x, y, z, hu⟩ := nums3_shape eapolL 1 1 2 rfl (raw.take 4) (take_len raw 4 (by omega))
+    obtain ⟨x, y, z, hu, hx, hy, hz⟩ := nums3_shape_lt eapolL 1 1 2 rfl (raw.take 4) (take_len raw 4 (by omega))
+    simp only [Nat.pow_one] at hx hy
+    have hz' : z < 65536 := by simpa using hz
     simp only [hu]
     split
     · exact .inl ⟨_, rfl, rfl, ext_specX _ _ _ trivial (nil_tiles raw)⟩
@@ -1378,12 +1399,14 @@ theorem eapolParse_spec (next : K → Bytes → P Frame) (raw : Bytes) (hn : Nex
   split
   · exact .inl ⟨_, rfl, rfl, specX_leaf _ rfl⟩
   · rename_i hlen
-    obtain ⟨x, y, z, hu⟩ := nums3_shape eapolL 1 1 2 rfl (raw.take 4) (take_len raw 4 (by omega))
+    obtain ⟨x, y, z, hu, hx, hy, hz⟩ := nums3_shape_lt eapolL 1 1 2 rfl (raw.take 4) (take_len raw 4 (by omega))
+    simp only [Nat.pow_one] at hx hy
+    have hz' : z < 65536 := by simpa using hz
     simp only [hu]
     split
     · rcases hn .eap (raw.drop 4) rfl (by simp [List.length_drop]; omega) with ⟨f, hf, hb, hg⟩ | ⟨e, he, hf⟩
       · simp only [hf]
-        exact .inl ⟨_, rfl, rfl, ext_specX _ _ _ hg.1 (by rw [hb]; exact drop_tiles raw 4)⟩
+        exact .inl ⟨_, rfl, rfl, ext_specX _ _ _ hg.1 (by rw [hb]; exact drop_tiles raw 4) ⟨hx, hy, hz', hg.2⟩⟩
       · simp only [he]; exact .inr ⟨e, rfl, hf⟩
     · exact .inl ⟨_, rfl, rfl, ext_specX _ _ _ trivial (nil_tiles raw)⟩
 
@@ -1691,20 +1714,20 @@ theorem icmp6Body_spec (src dst : Bytes) (next : K → Bytes → P Frame) (type 
   have t8 : ∃ hd cut, raw.drop 4 = hd ++ ((Frame.raw (raw.drop 8)).bytes ++ cut) ∧ min 4 (raw.drop 4).length ≤ hd.length := by
     show ∃ hd cut, raw.drop 4 = hd ++ (raw.drop 8 ++ cut) ∧ min 4 (raw.drop 4).length ≤ hd.length
     rw [d8]; exact drop_tiles (raw.drop 4) 4 (k := 4) (by omega)
-  have nd : ∀ (x : Ext), Out fx (fun f => f.Tiles) (raw.drop 4) (.ok (.ext x (raw.drop 4) .nil)) :=
-    fun x => .inl ⟨_, rfl, rfl, ⟨nil_tiles _, trivial⟩⟩
-  have ro : ∀ (s : Site) (x : Ext), Out fx (fun f => f.Tiles) (raw.drop 4) (raiseOr fx s (pure (.ext x (raw.drop 4) .nil))) := by
-    intro s x
+  have nd : ∀ (x : Ext), ExtOK x .nil → Out fx (fun f => f.Tiles) (raw.drop 4) (.ok (.ext x (raw.drop 4) .nil)) :=
+    fun x hx => .inl ⟨_, rfl, rfl, ⟨nil_tiles _, hx, trivial⟩⟩
+  have ro : ∀ (s : Site) (x : Ext), ExtOK x .nil → Out fx (fun f => f.Tiles) (raw.drop 4) (raiseOr fx s (pure (.ext x (raw.drop 4) .nil))) := by
+    intro s x hx
     rcases raiseOr_cases fx s (pure (.ext x (raw.drop 4) .nil) : P Frame) with hr | ⟨hf, hr⟩ <;> rw [hr]
-    · exact nd x
+    · exact nd x hx
     · exact .inr ⟨_, rfl, hf⟩
-  have opts : ∀ (o : Nat) (g : List NdOpt → Ext), 8 ≤ o →
+  have opts : ∀ (o : Nat) (g : List NdOpt → Ext), (∀ os, ExtOK (g os) .nil) → 8 ≤ o →
       Out fx (fun f => f.Tiles) (raw.drop 4) (match ndOptsOf fx raw o with
         | .ok os => pure (.ext (g os) (raw.drop 4) .nil)
         | .error e => .error e) := by
-    intro o g ho
+    intro o g hg ho
     rcases ndOptsOf_spec (fx := fx) raw o ho (by omega) with ⟨os, hos⟩ | ⟨s, hs, hf⟩
-    · simp only [hos]; exact nd _
+    · simp only [hos]; exact nd _ (hg _)
     · simp only [hs]; exact .inr ⟨s, rfl, hf⟩
   by_cases c1 : type = 128 ∨ type = 129
   · rw [if_pos c1]
@@ -1719,40 +1742,40 @@ theorem icmp6Body_spec (src dst : Bytes) (next : K → Bytes → P Frame) (type 
     · exact .inr ⟨s, hs, hf⟩
   rw [if_neg c2]
   by_cases c3 : type = 3
-  · rw [if_pos c3]; exact .inl ⟨_, rfl, rfl, ⟨t8, trivial⟩⟩
+  · rw [if_pos c3]; exact .inl ⟨_, rfl, rfl, ⟨t8, trivial, trivial⟩⟩
   rw [if_neg c3]
   by_cases c4 : type = 2
   · rw [if_pos c4]
     split
-    · exact ro _ _
-    · exact .inl ⟨_, rfl, rfl, ⟨t8, trivial⟩⟩
+    · exact ro _ _ trivial
+    · exact .inl ⟨_, rfl, rfl, ⟨t8, trivial, trivial⟩⟩
   rw [if_neg c4]
   by_cases c5 : type = 133
-  · rw [if_pos c5]; exact opts 8 _ (by omega)
+  · rw [if_pos c5]; exact opts 8 _ (fun _ => trivial) (by omega)
   rw [if_neg c5]
   by_cases c6 : type = 134
   · rw [if_pos c6]
     split
-    · exact ro _ _
+    · exact ro _ _ trivial
     · rcases ndOpts_spec (fx := fx) raw raw.length 16 [] (by omega) (by omega) with ⟨r, hr⟩ | ⟨s, hs, hf⟩
-      · simp only [hr]; cases r <;> exact nd _
+      · simp only [hr]; cases r <;> exact nd _ trivial
       · simp only [hs]; exact .inr ⟨s, rfl, hf⟩
   rw [if_neg c6]
   by_cases c7 : type = 135
   · rw [if_pos c7]
     split
-    · exact ro _ _
-    · exact opts 24 _ (by omega)
+    · exact ro _ _ trivial
+    · exact opts 24 _ (fun _ => trivial) (by omega)
   rw [if_neg c7]
   by_cases c8 : type = 136
   · rw [if_pos c8]
     cases hi : idx raw 4 with
-    | error e => exact ro _ _
+    | error e => exact ro _ _ trivial
     | ok flags =>
       dsimp only
       split
-      · exact ro _ _
-      · exact opts 24 _ (by omega)
+      · exact ro _ _ trivial
+      · exact opts 24 _ (fun _ => trivial) (by omega)
   rw [if_neg c8]
   exact .inl ⟨_, rfl, rfl, trivial⟩
 
@@ -2434,6 +2457,85 @@ theorem packTop : ∀ (f : Frame), Good f → f.hasForeign = false → ∃ out, 
     obtain ⟨rest, hrest, hle⟩ := packIn n true (some ⟨h.src, h.dst, h.proto⟩) g' (by omega)
       (by simpa [Frame.hasForeign] using hfo) (fun _ => ⟨_, rfl, ⟨hfit.src, hfit.dst, hfit.proto⟩⟩)
     exact ⟨_, packF_ipv4 none h r n rest hrest hfit (by omega)⟩
+
+/-! ### `pack()` of the phase-2 classes in the pack model (mpls, eapol, eap) -/
+
+theorem mplsHdrX_ok (h : Mpls) : ∃ b, mplsHdrX h = .ok b := by
+  unfold mplsHdrX
+  obtain ⟨b, hb, _⟩ := pk_ok [.uint 2, .uint 1, .uint 1]
+    [.num (h.label % 1048576 / 16), .num (h.label % 1048576 % 16 * 16 + h.tc % 8 * 2 + h.s % 2), .num (h.ttl % 256)]
+    (by simp [fits]; omega)
+  exact ⟨b, hb⟩
+
+theorem eapolHdrX_ok (h : Eapol) (h1 : h.version < 256) (h2 : h.type < 256) (h3 : h.bodylen < 65536) : ∃ b, eapolHdrX h = .ok b := by
+  obtain ⟨b, hb, _⟩ := pk_ok [.uint 1, .uint 1, .uint 2] [.num h.version, .num h.type, .num h.bodylen] (by simp [fits]; omega)
+  exact ⟨b, hb⟩
+
+theorem eapHdrX_ok (h : Eap) (h1 : h.code < 256) (h2 : h.id < 256) (h3 : h.length < 65536) : ∃ b, eapHdrX h = .ok b := by
+  obtain ⟨b, hb, _⟩ := pk_ok [.uint 1, .uint 1, .uint 2] [.num h.code, .num h.id, .num h.length] (by simp [fits]; omega)
+  exact ⟨b, hb⟩
+
+/-- a chain of phase-2 objects of the classes in the pack model, ending in bytes / nothing / an object that gave up, packs -/
+theorem packX : ∀ (f : Frame), f.Tiles → (f.isLeaf = true ∨ f.isExt = true) → f.packModelled = true → ∃ out, packF none f = .ok out := by
+  intro f
+  induction f with
+  | raw b => intro _ _ _; exact ⟨b, rfl⟩
+  | nil => intro _ _ _; exact ⟨[], rfl⟩
+  | unparsed c r => intro _ _ _; exact ⟨r, rfl⟩
+  | foreign c r => intro _ _ hp; simp [Frame.packModelled] at hp
+  | eth _ _ _ _ | vlan _ _ _ _ | llc _ _ _ _ _ | arp _ _ _ _ | ipv4 _ _ _ _ | udp _ _ _ _ | tcp _ _ _ _ | icmp _ _ _ _ | echo _ _ _ _
+  | unreach _ _ _ _ | timeEx _ _ _ _ | lldp _ _ _ => intro _ hl _; simp [Frame.isLeaf, Frame.isExt] at hl
+  | ext x r n ih =>
+    intro ht _ hp
+    obtain ⟨_, hx, hn⟩ := ht
+    simp only [Frame.packModelled, Bool.and_eq_true] at hp
+    obtain ⟨hpk, hpn⟩ := hp
+    cases x with
+    | mpls h =>
+      obtain ⟨rest, hrest⟩ := ih hn hx hpn
+      obtain ⟨hd, hhd⟩ := mplsHdrX_ok h
+      exact ⟨hd ++ rest, by simp [packF, hrest, hhd, bind, Except.bind, pure, Except.pure]⟩
+    | eapol h =>
+      obtain ⟨h1, h2, h3, hl⟩ := hx
+      obtain ⟨rest, hrest⟩ := ih hn hl hpn
+      obtain ⟨hd, hhd⟩ := eapolHdrX_ok h h1 h2 h3
+      exact ⟨hd ++ rest, by simp [packF, hrest, hhd, bind, Except.bind, pure, Except.pure]⟩
+    | eap h =>
+      obtain ⟨h1, h2, h3, hl⟩ := hx
+      obtain ⟨rest, hrest⟩ := ih hn hl hpn
+      obtain ⟨hd, hhd⟩ := eapHdrX_ok h h1 h2 h3
+      exact ⟨hd ++ rest, by simp [packF, hrest, hhd, bind, Except.bind, pure, Except.pure]⟩
+    | _ => simp [Ext.packs] at hpk
+
+/-- `pack()` at frame level, the phase-2 classes of the pack model included -/
+theorem packTop2 : ∀ (f : Frame), Good f → f.packModelled = true → ∃ out, packF none f = .ok out := by
+  intro f
+  induction f with
+  | ext x r n _ => intro g hp; exact packX _ g (.inr rfl) hp
+  | eth h r n ih =>
+    intro g hp
+    obtain ⟨hfit, _, g'⟩ := g
+    obtain ⟨rest, hrest⟩ := ih g' (by simpa [Frame.packModelled] using hp)
+    exact ⟨ethBytes h ++ rest, by simp [packF, hrest, ethHdr_ok h hfit, bind, Except.bind, pure, Except.pure]⟩
+  | vlan h r n ih =>
+    intro g hp
+    obtain ⟨hfit, _, g'⟩ := g
+    obtain ⟨rest, hrest⟩ := ih g' (by simpa [Frame.packModelled] using hp)
+    exact ⟨vlanBytes h ++ rest, by simp [packF, hrest, vlanHdr_ok h hfit, bind, Except.bind, pure, Except.pure]⟩
+  | llc h p r n ih =>
+    intro g hp
+    obtain ⟨g1, g2, g'⟩ := g
+    cases p with
+    | false => exact ⟨r, by simp [packF, pure, Except.pure]⟩
+    | true =>
+      obtain ⟨rest, hrest⟩ := ih g' (by simpa [Frame.packModelled] using hp)
+      obtain ⟨hb, hhb⟩ := llcHdr_ok h (g1 rfl).1
+      exact ⟨hb ++ rest, by simp [packF, hrest, hhb, bind, Except.bind, pure, Except.pure]⟩
+  | foreign c r => intro _ hp; simp [Frame.packModelled] at hp
+  | raw _ | nil | unparsed _ _ | arp _ _ _ _ | ipv4 _ _ _ _ | lldp _ _ _ | udp _ _ _ _ | tcp _ _ _ _ | icmp _ _ _ _ | echo _ _ _ _
+  | unreach _ _ _ _ | timeEx _ _ _ _ =>
+    intro g hp
+    exact packTop _ g (by simpa [Frame.packModelled] using hp)
 
 /-! ## relation to the total parser of C14 (`Packet.parse`, Model/PacketHdr.lean)
 
